@@ -130,21 +130,13 @@ theorem C12_decode_spec (i : Input) (h : WF i = true) (target : Int) :
 
 /-- `type E uint8; const EA E = 44`: IsEnum[E, int64](300) is true, 300 is not a declared value -/
 def truncWitness : Input :=
-  { T := ['E'], kind := ⟨false, 8, false⟩,
+  { T := ['E'], kind := ⟨false, 8⟩,
     blocks := [[{ names := [['E', 'A']], ty := some ['E'], hasVals := true, exprTy := none, vals := [44] }]] }
 
 theorem C12_F_isenum_trunc_witness :
     WF truncWitness = true ∧ F_isenum_trunc truncWitness.kind truncWitness.decl [300] = true ∧
     isEnum truncWitness.kind (valuesT (tables truncWitness)) 300 = true ∧ specIsEnum truncWitness.decl 300 = false := by
   decide
-
-/-- `type Color int` (the kind is `int` itself): not in the type set of constraints.Integer -/
-def intWitness : Input :=
-  { T := ['C'], kind := ⟨true, 64, true⟩,
-    blocks := [[{ names := [['C', 'A']], ty := some ['C'], hasVals := true, exprTy := none, vals := [1] }]] }
-
-theorem C12_F_int_constraint_witness :
-    F_int_constraint intWitness = true ∧ intWitness.kind.inConstraint = false := by decide
 
 /-! ### non-vacuity -/
 
